@@ -86,6 +86,30 @@ Section Spec.
     map (map (observe ks)) o.
 End Spec.
 
+(* "the certificate of the entity": an entity built from a configuration that names a certificate
+   file publishes the certificate that was installed at that path when the entity was built - the
+   most recent installation before its creation, whatever the time stamps say and whatever is
+   installed there afterwards.  `before` = the steps already done, most recent first. *)
+Fixpoint last_install (p : nat) (before : list dstep) : option nat :=
+  match before with
+  | [] => None
+  | DInstall q k _ _ :: r => if Nat.eqb q p then Some k else last_install p r
+  | _ :: r => last_install p r
+  end.
+
+Fixpoint certs_from (before : list dstep) (d : list dstep) : list nat :=
+  match d with
+  | [] => []
+  | DCreate p :: r =>
+      match last_install p before with
+      | Some k => k :: certs_from (DCreate p :: before) r
+      | None => certs_from (DCreate p :: before) r
+      end
+  | s :: r => certs_from (s :: before) r
+  end.
+
+Definition published (d : list dstep) : list nat := certs_from [] d.
+
 Arguments keys {sigv}.
 Arguments gon {sigv}.
 Arguments progs {sigv}.
